@@ -485,11 +485,11 @@ def _resolve_weak_scalars(
         spec = tuple(
             type(v) if type(v) in (int, float) else dtype_of(v) for v in input_vars
         ) + (None,) * ufunc.nout
-        sig = None
+        kw = {}
         if dtype is not None:
-            sig = (None,) * ufunc.nin + (np.dtype(dtype),) * ufunc.nout
+            kw["signature"] = (None,) * ufunc.nin + (np.dtype(dtype),) * ufunc.nout
         try:
-            loop = ufunc.resolve_dtypes(spec, signature=sig)
+            loop = ufunc.resolve_dtypes(spec, **kw)
         except Exception:
             loop = None
         if loop is not None:
